@@ -245,9 +245,10 @@ def judge_calc_pair(mod: Any, pair: Any, recipe: list[Any]) -> tuple[list[tuple[
         return [], {"status": f"raised:{type(exc).__name__}"}
     out = []
     got = [si_value(c) for c in back.components] + [sympy.S.Zero] * 3
+    vscale = max([abs(sympy.N(x, 30)) for x in got[:3]] + [abs(sympy.N(x, 30)) for x in si_in[:3]])
     for i in range(3):
         gv = sympy.N(got[i], 30)
-        if abs(gv - si_in[i]) > sympy.Float("1e-9") * (abs(gv) + abs(si_in[i])) + sympy.Float("1e-25"):
+        if abs(gv - si_in[i]) > sympy.Float("1e-9") * vscale + sympy.Float("1e-25"):
             out.append((f"not-inverse:{site}",
                 f"{short(mod.__name__)}: {gname}({fname}(v, rest), rest) != v: SI component {i} is {gv}, expected {sympy.N(si_in[i], 15)} "
                 f"(v={[str(c.scale_factor) + ' ' + str(c.dimension.name) for c in comps]})"))
@@ -367,7 +368,8 @@ def judge_calc_vs_law(mod: Any, link: Any, recipe: list[Any]) -> tuple[list[tupl
     n = max(len(gcomps), len(wcomps))
     gcomps += [sympy.S.Zero] * (n - len(gcomps))
     wcomps += [sympy.S.Zero] * (n - len(wcomps))
-    for i, (g, w) in enumerate(zip(gcomps, wcomps)):
+    pairs = []
+    for g, w in zip(gcomps, wcomps):
         try:
             ww = sympy.sympify(w).xreplace(sub)
             ww = ww.xreplace({q: si_value(q) for q in ww.atoms(SymQuantity)})
@@ -377,7 +379,13 @@ def judge_calc_vs_law(mod: Any, link: Any, recipe: list[Any]) -> tuple[list[tupl
             return [], {"status": "unevaluable"}
         if not wv.is_number or not gv.is_number or wv.has(sympy.nan, sympy.zoo, sympy.oo) or gv.has(sympy.nan, sympy.zoo, sympy.oo):
             return [], {"status": "unevaluable"}
-        if abs(gv - wv) > sympy.Float("1e-9") * (abs(gv) + abs(wv)) + sympy.Float("1e-25"):
+        pairs.append((gv, wv))
+    # the calculate function works in double precision: a component that is a small difference of large terms (a
+    # relativistic correction of order v^2/c^2 beside components of order 1) carries the rounding noise of the whole
+    # vector, so the tolerance is relative to the largest component
+    vscale = max([abs(x) for gw in pairs for x in gw] + [sympy.Float(0)])
+    for i, (gv, wv) in enumerate(pairs):
+        if abs(gv - wv) > sympy.Float("1e-9") * vscale + sympy.Float("1e-25"):
             return [(f"calc-differs-from-law:{site}",
                 f"{short(mod.__name__)}: {cname}({shown}) has SI component {i} = {sympy.N(gv, 15)}, but {lname} on the same SI "
                 f"values gives {sympy.N(wv, 15)}")], {"status": "ok"}
